@@ -2,6 +2,7 @@ package main
 
 import (
 	"go/ast"
+	"sort"
 	"strings"
 )
 
@@ -131,6 +132,20 @@ func checkC05(p *Prog, r *Report) {
 		_, u := p.HasCallEqNil(facts, hir, "stun.AssertUsername", 0, true)
 		_, m := p.HasCallEqNil(facts, hir, "stun.MessageIntegrity.Check", 0, true)
 		r.Check(u && m, "conflict test: authenticated", pos, "username and integrity guards hold", "role conflict handled for an unauthenticated request")
+		// no further guard: every authenticated same-role request is a conflict
+		var extra []string
+		for _, ft := range facts {
+			switch {
+			case ft.Op == "assigned" || ft.Op == "range" || ft.Op == "comm" || ft.Op == "default":
+			case ft.Op == "==" && p.isNilExpr(ft.Y) && (p.atomIsCallAny(hir, ft.X, "ice.AttrControl.GetFrom", "stun.AssertUsername", "stun.MessageIntegrity.Check")):
+			case ft.Op == "==" && (p.IsField(ft.X, "AttrControl.Role") || p.IsField(ft.Y, "AttrControl.Role")):
+			default:
+				extra = append(extra, stripVarLines(ft.String()))
+			}
+		}
+		sort.Strings(extra)
+		r.Check(len(extra) == 0, "conflict test: no additional guard", pos, "the conflict handler is reached for every authenticated same-role request",
+			"the conflict handler is additionally guarded by "+strings.Join(extra, "; ")+": same-role requests outside that condition are processed as ordinary connectivity checks")
 
 		// what can run after the conflict handler inside the request handler
 		loc, _ := p.CFG(hir).Locate(c)
